@@ -8,8 +8,49 @@ SERVER_FAULTS = ["none", "none", "none", "raise-all", "raise-nth", "disconnect-n
                  "hang-nth"]
 
 
+def build_directed(rng):
+    """Directed families (placements are given as RANKS in the permuted server order of the
+    file's storage index; materialize() maps ranks to servers)."""
+    fam = rng.choice(["late-majority", "dup-failover"])
+    if fam == "late-majority":
+        # more than ten servers; the first ten in permuted order hold nothing and answer the share query
+        # late (but within the overdue time); the only shares sit on the servers behind them
+        nservers = rng.randint(11, 14)
+        k = rng.randint(1, 3)
+        n = rng.randint(k, min(k + 2, nservers - 10 + 2))
+        placements = []
+        for sh in range(n):
+            placements.append((10 + (sh % (nservers - 10)), sh, "good"))
+        faults = {}
+        d = rng.choice([0.3, 0.5, 2.0, 5.0])
+        for r in range(nservers):
+            faults[r] = {"kind": "delay", "delay": d, "method": "get_buckets"} if r < 10 else {"kind": "none"}
+    else:
+        # one share number on two servers: the first copy's reads all fail, at different times; the intact
+        # second copy answers late; no spare share numbers
+        k = rng.randint(2, 4)
+        n = k
+        nservers = k + 1 + rng.randint(0, 2)
+        placements = [(0, 0, "good"), (1, 0, "good")] + [(1 + sh, sh, "good") for sh in range(1, n)]
+        faults = {r: {"kind": "none"} for r in range(nservers)}
+        faults[0] = {"kind": "error-staggered", "method": "read", "delay": rng.choice([0.1, 0.2, 0.5]),
+                     "delay_step": rng.choice([0.2, 0.4, 1.0])}
+        faults[1] = {"kind": "delay", "delay": rng.choice([1.5, 3.0, 6.0]), "method": "read"}
+        if n > 1 and rng.random() < .5:
+            # keep the late server for share 0 only
+            placements = [(0, 0, "good"), (1, 0, "good")] + [(2 + sh - 1, sh, "good") for sh in range(1, n)]
+            nservers = max(nservers, n + 1)
+            faults = {r: faults.get(r, {"kind": "none"}) for r in range(nservers)}
+    segsize = rng.choice([64, 128, 1024])
+    size = rng.choice([100, segsize * 2 + 1, segsize * 3, 2000])
+    return dict(k=k, n=n, segsize=segsize, size=size, nservers=nservers, layout=fam, by_rank=True,
+                placements=placements, faults=faults)
+
+
 def build(rng, allow_hang=True, maxn=6):
     """Generate a case description (pure data)."""
+    if rng.random() < .12:
+        return build_directed(rng)
     n = rng.choice([1, 2, 3, 3, 4, 5, maxn])
     k = rng.randint(1, n)
     segsize = rng.choice([32, 64, 128, 1024])
@@ -78,6 +119,9 @@ def classify(case):
     maybe = set()
     for (s, sh, st) in case["placements"]:
         fk = faults[s]["kind"]
+        if fk == "error-staggered" and st != "missing":
+            maybe.add(sh)
+            continue
         if st == "good" and fk in ("none", "delay", "delay-nth"):
             good.add(sh)      # intact share on a server that answers every request (possibly late)
         definitely_bad = st in ("missing", "destroyed") or fk in ("dead", "raise-all")
@@ -107,6 +151,12 @@ def materialize(case, rng, seed, profile):
         raise RuntimeError("scratch upload incomplete")
     g = VGrid(nservers=case["nservers"], seed=seed, profile=profile, keep_log=False)
     si = uri.from_string(cap).get_storage_index()
+    if case.get("by_rank"):
+        from allmydata.util.hashutil import permute_server_hash
+        order = sorted(range(case["nservers"]),
+                       key=lambda i: permute_server_hash(si, g.servers[i].iserver.get_permutation_seed()))
+        case = dict(case, placements=[(order[r], sh, st) for (r, sh, st) in case["placements"]],
+                    faults={order[r]: f for r, f in case["faults"].items()})
     for (s, sh, st) in case["placements"]:
         if st == "missing":
             continue
@@ -141,7 +191,9 @@ def materialize(case, rng, seed, profile):
             vs.connected = False
             vs.zombie = rng.random() < .6
         elif kind == "delay":
-            vs.add_fault("delay", delay=spec["delay"])
+            vs.add_fault("delay", delay=spec["delay"], method=spec.get("method"))
+        elif kind == "error-staggered":
+            vs.add_fault("raise", method=spec["method"], delay=spec["delay"], delay_step=spec["delay_step"])
         elif kind == "delay-nth":
             vs.add_fault("delay", method=spec["method"], nth=spec["nth"], delay=spec["delay"])
         elif kind == "hang-nth":
